@@ -558,10 +558,10 @@ async fn run_e2e_once(serial: u64, rounds: usize, concurrent: usize, mode: u64) 
                 }
             }
         }
-        // refreshes answered within 5 ms of each other were answered from ONE received update, i.e. their
-        // response channels had been merged in the slot (diagnostic for the coverage floor)
+        // refreshes answered within 50 ms of each other (diagnostic only: close answers are what a merged update
+        // produces, but unmerged ones can be close too)
         finished.sort();
-        let together = finished.windows(2).filter(|w| w[1].duration_since(w[0]) < Duration::from_millis(5)).count();
+        let together = finished.windows(2).filter(|w| w[1].duration_since(w[0]) < Duration::from_millis(50)).count();
         translator.delay_ms.store(0, Ordering::SeqCst);
         let mut final_ok = 1;
         if mode == 2 {
@@ -856,7 +856,7 @@ fn main() {
     }
     // multi-thread stress: 50 * n merges in total (quick 10^6, thorough 10^7)
     let total = a.n * 50;
-    let cases: u64 = if thorough { 10 } else { 4 };
+    let cases: u64 = if thorough { 10 } else { 5 };
     let mut serial = a.seed.wrapping_mul(7919) & 0xffff_ffff;
     for k in 0..cases {
         serial += 1;
@@ -867,7 +867,7 @@ fn main() {
         out.case(&c, &o);
     }
     // end-to-end: requested metadata refreshes are answered and the published state is the latest topology
-    let z_cases: u64 = if thorough { 36 } else { 18 };
+    let z_cases: u64 = if thorough { 36 } else { 21 };
     for k in 0..z_cases {
         serial += 1;
         // k = 1 mod 3: busy-consumer scenario (mode 1) with 3..5 staged refreshes per round;
